@@ -51,7 +51,7 @@ type concWorld struct{}
 func (concWorld) Name() string { return "W-CONC" }
 
 var concPrivateOps = []string{"new", "dec-cbor", "decv-cbor", "dec-json", "decv-json", "dec-cose", "decv-cose", "build-enc", "sign", "sign-verify", "dec-cbor-damaged", "dec-json-damaged",
-	"dec-json-dep", "decv-json-dep", "unmarshal-cose", "claims-unmarshal", "dec-iface-ext"}
+	"dec-json-dep", "decv-json-dep", "unmarshal-cose", "claims-unmarshal", "dec-iface-ext", "venc-stat"}
 var concSharedOps = []string{"s.validate", "s.getters", "s.enc-cbor", "s.enc-json", "s.venc", "s.verify", "s.evjson", "s.full", "s.evids"}
 
 func (concWorld) Gen(prop, tier string, idx int, r *Rng) *Trace {
@@ -66,6 +66,15 @@ func (concWorld) Gen(prop, tier string, idx int, r *Rng) *Trace {
 		d := genValidClaims(r, pf)
 		if r.Chance(1, 6) {
 			d = genInvalidClaims(r, pf)
+			if r.Chance(1, 2) && len(d.Sw) > 0 {
+				// a longish component list with one or two malformed entries somewhere in it
+				for n := r.Range(33, 48); len(d.Sw) < n; {
+					d.Sw = append(d.Sw, genSw(r))
+				}
+				for k := r.Range(1, 2); k > 0; k-- {
+					d.Sw[r.Intn(len(d.Sw))].MVal = hp(r.Bytes(5))
+				}
+			}
 		} else if r.Chance(1, 10) && len(d.Sw) > 0 {
 			// an unusual but legal claims-set: a few hundred software components
 			for n := r.Range(257, 300); len(d.Sw) < n; {
@@ -123,7 +132,28 @@ func (concWorld) Gen(prop, tier string, idx int, r *Rng) *Trace {
 			focus = concSharedOps[r.Intn(len(concSharedOps))]
 		}
 	}
+	// cold start, one run in six: the very first thing every task does is to build and encode a
+	// claims-set of the same extension family (first uses of per-type state overlap)
+	cold := -1
+	if r.Chance(1, 6) {
+		for k, d := range cfg.Claims {
+			if d.Prof == "xp2" || d.Prof == "xw" || d.Prof == "xk" || d.Prof == "xp1" {
+				cold = k
+			}
+		}
+		if cold < 0 {
+			cfg.Claims = append(cfg.Claims, genValidClaims(r, []string{"xp2", "xk", "xw"}[r.Intn(3)]))
+			cold = len(cfg.Claims) - 1
+			nClaims = len(cfg.Claims)
+		}
+		if len(cfg.Claims[cold].Sw) > 100 {
+			cold = -1
+		}
+	}
 	for t := 0; t < cfg.Tasks; t++ {
+		if cold >= 0 {
+			ops = append(ops, Op{A: t, K: "build-enc", B: cold})
+		}
 		n := r.Range(3, 10)
 		if cfg.Tasks > 16 {
 			n = r.Range(2, 5)
@@ -227,6 +257,21 @@ func (e *concEnv) do(op Op) string {
 		return digestClaims(psatoken.DecodeClaimsFromJSON(cp(e.jsn[ci])))
 	case "decv-json":
 		return digestClaims(psatoken.DecodeAndValidateClaimsFromJSON(cp(e.jsn[ci])))
+	case "venc-stat":
+		// a private object of a user type whose Validate() writes to the object itself
+		d := cfg.Claims[ci]
+		if d.Prof == "p1" || d.Prof == "xp1" {
+			return "n/a"
+		}
+		b, err := buildP2(&d, psatoken.Profile2Name)
+		if err != nil {
+			return "unbuildable"
+		}
+		b.Profile = eatProfileOf(psatoken.Profile2Name)
+		x := &XStatClaims{P2Claims: *b}
+		j, e1 := psatoken.ValidateAndEncodeClaimsToJSON(x)
+		c, e2 := psatoken.ValidateAndEncodeClaimsToCBOR(x)
+		return hash8(string(j)+string(c)) + okOrErr(e1) + okOrErr(e2) + fmt.Sprint(x.nValidate)
 	case "dec-iface-ext":
 		// an extension that embeds the IClaims INTERFACE holding a NewClaims result and decodes
 		// through the embedding-aware helpers (a shape they support)
